@@ -140,6 +140,8 @@ def run(check):
                                 case={"position": pos, "rule": rule, "ident": s_}, impl=got, model=want, failing_input=True)
     if not check.has_failing():
         ident_part(check, impl_serde)
+        if not check.has_failing():
+            backend_part(check)
     n_div = sum(1 for (rule, s_), got in impl_ts.items() if rule in RULES
                 for pos in ("field", "variant") if "panic" not in impl_serde[(pos, rule, s_)] and got != impl_serde[(pos, rule, s_)])
     check.extra["divergences_from_serde_outside_conventional_names"] = n_div
@@ -147,6 +149,38 @@ def run(check):
     check.extra["exhaustive_scope"] = "strings of length <= %d over 6 class representatives" % maxlen
     check.assumptions += ["Unicode case mapping (char::is_uppercase for the snake/kebab family; str::to_lowercase/uppercase are no longer used by rename_all_to_case since 7d1c05f) is a parameter of the model; its table for the alphabet is computed by Rust std on every run",
                           "serde's algorithm is the vendored serde_derive 1.0.214 internals/case.rs, compiled unchanged into the runner"]
+
+
+def backend_part(check):
+    """the names the rules give must also be the names each back end *writes*: one struct and one struct variant per rule, multi-word
+    fields first and a single-word field last, through all six generators; judged with C01's extractors (the key each declaration
+    binds) against the python reading of serde's rule"""
+    import c01, l2
+    from syn_gen import m_path, m_nv, m_list, lit_s, t_path, field
+    from gen import Gen
+    ts = [m_path("typeshare")]
+    reqs, meta = [], []
+    g = Gen(check.rng)
+    for rule in RULES:
+        ra = [m_list("serde", [m_nv("rename_all", lit_s(rule))])]
+        fs = lambda: ("named", [field([], w, t_path("u8")) for w in ("first_name", "created_by_user", "x2_value", "age")])
+        f = {"attrs": [], "items": [
+            {"kind": "struct", "attrs": ts + ra, "ident": "Person", "generics": [], "fields": fs()},
+            {"kind": "enum", "attrs": ts + [m_list("serde", [m_nv("tag", lit_s("t")), m_nv("content", lit_s("c"))])], "ident": "Ev", "generics": [],
+             "variants": [{"attrs": list(ra), "ident": "Made", "fields": fs()}, {"attrs": [], "ident": "Gone", "fields": ("unit",)}]}]}
+        for lang in LANGS:
+            cfg = {"package": "proto" if lang == "go" else "com.example", "type_mappings": {}, "version_header": False, "prefix": "", "module_name": ""}
+            m, r, texts = l2.requests(lang, cfg, [{"crate": "", "file_name": "out", "path": "src/lib.rs", "file": f}], g)
+            reqs.append(r)
+            meta.append((rule, lang, cfg, f, texts[0]))
+    for (rule, lang, cfg, f, src), a in zip(meta, runner(reqs)):
+        check.saw(("backend", rule, lang), nontrivial=True)
+        check.count("backend-level")
+        probs, n = c01.oracle(lang, cfg, f, l2.norm(a))
+        if probs:
+            check.violation("rename_all %s: the %s back end does not write the names the rule gives: %s" % (rule, lang, probs[0]),
+                            case={"source": src, "rule": rule, "lang": lang}, impl=a, failing_input=True)
+            return
 
 
 def ident_part(check, impl_serde):
